@@ -196,21 +196,41 @@ def judge(req, obs):
             elif bi and cv.get("eab_kid") != "kid-%d" % bi:
                 add("ca-record=config", "binding", "after a successful renewal the CA's binding equals the configuration kid-%d" % bi, "%s; history %s" % (cv.get("eab_kid"), hist))
             last_binding_synced[e] = bi
-    # canonical key of the reached state
+    # canonical core of the reached state (absolute: independent of the configuration in force)
     key = None
     if last_detail is not None and len(phases) and phases[-1].get("new") in ("ok", None):
+        import base64
+        import hashlib
+        chash = {hashlib.sha256("".join("mailto:" + x for x in c).encode()).hexdigest(): i for i, c in enumerate(CONTACTS)}
+        raw = base64.urlsafe_b64decode(EAB_KEY + "=" * (-len(EAB_KEY) % 4))
+        ehash = {hashlib.sha256(raw + ("kid-%d" % i).encode()).hexdigest(): i for i in (1, 2)}
+        ehash[""] = 0
+        past = last_detail.get("past_thumbs") or []
+        npast = len(past)
+
+        def rel(thumb):
+            if thumb is None:
+                return "none"
+            if thumb == last_detail.get("current_thumb"):
+                return "current"
+            if thumb in past:
+                return "past-last" if past.index(thumb) == npast - 1 else "past-earlier"
+            return "other"
+
         per_ep = []
-        ci, ki, bi = m["final_state"]
+        final_view = views_at_end[-1] if views_at_end else {}
         for e in sorted(EPS)[:m["n_ca"]]:
             d = (last_detail.get("endpoint_details") or {}).get("ep%s" % e)
-            ca_state = [c for c in obs["cas"] if c["name"] == "ca%s" % e][0]
-            v = ca_view(ca_state, last_detail)
-            cav = (v[0], (v[1] == tuple("mailto:" + x for x in CONTACTS[ci])) if len(v) > 1 else None, v[2] if len(v) > 2 else None)
+            cv = final_view.get("ca%s" % e, {})
+            cav = (bool(cv.get("known")), rel(cv.get("thumb")) if cv.get("known") else "none",
+                   next((i for i, c in enumerate(CONTACTS) if tuple("mailto:" + x for x in c) == cv.get("contacts")), None) if cv.get("known") else None,
+                   cv.get("eab_kid") if cv.get("known") else None)
             if d is None:
                 per_ep.append((None, cav))
             else:
-                per_ep.append(((bool(d["account_url"]), d["key"] if d["key"] in ("current", "none", "unknown") else "past", d["contacts_current"], d["has_eab_hash"]), cav))
-        key = (m["final_state"], tuple(per_ep), min(len(last_detail.get("past_thumbs") or []), 3), tuple(sorted(last_binding_synced.items())))
+                which = d["key"] if d["key"] in ("current", "none", "unknown") else ("past-last" if d["key"] == "past%d" % (npast - 1) else "past-earlier")
+                per_ep.append(((bool(d["account_url"]), which, chash.get(d.get("contacts_hash"), "x"), ehash.get(d.get("eab_hash"), "x")), cav))
+        key = (tuple(per_ep), min(npast, 3), last_detail.get("key_type"))
     return dedupe(out), key
 
 
@@ -245,26 +265,46 @@ def run(ctx):
     res = Result("model_checking")
     n_ca, n_kt = (2, 2) if ctx.quick else (3, 3)
     events = EVENTS_Q if ctx.quick else EVENTS_T
-    depth = 4 if ctx.quick else 6
+    depth = 5 if ctx.quick else 6
     res.rule = ("E3: breadth-first search over histories of {renew on endpoint A/B(/C), edit contacts, change key type, change both, next external binding, restart, "
                 "CA forgets the account on A(/B)} to depth %d over one account on %d endpoints; each history is re-executed on the real daemon (fresh scratch directory, "
                 "one mock CA per endpoint, one phase per restart/renewal) and deduplicated by a canonical key (configuration indices; per endpoint: URL stored?, stored key "
                 "fingerprint = current/past/none, stored contact fingerprint current?, CA's record relative to the daemon's keys and contacts; number of superseded keys). "
                 "Invariants on every renewal transition. E4: account shapes saved and loaded back; every truncation point of account files.") % (depth, n_ca)
     seen = {}
+    core_of = {(): ("initial",)}
     frontier = [[]]
     total = 0
     depth_done = 0
-    cap = 4000 if ctx.quick else 60000
+    cap = 6000 if ctx.quick else 60000
+
+    def cfg_and_pending(h):
+        st = (0, 0, 0)
+        pending = set()
+        for ev in h:
+            ci, ki, bi = st
+            if ev == "contacts":
+                st = (1 - ci, ki, bi)
+            elif ev == "key":
+                st = (ci, (ki + 1) % n_kt, bi)
+            elif ev == "both":
+                st = (1 - ci, (ki + 1) % n_kt, bi)
+            elif ev == "binding":
+                st = (ci, ki, (bi + 1) % 3)
+            elif ev.startswith("forget"):
+                pending.add(ev[-1])
+            elif ev.startswith(("renew", "restart")):
+                # a phase applies the pending forgets; the key type in force is the one loaded
+                pending = set()
+        return st, tuple(sorted(pending))
+
     for d in range(1, depth + 1):
         cands = []
         for h in frontier:
             for ev in events:
                 if ev[-1] in EPS and EPS[ev[-1]] >= n_ca:
                     continue
-                # two configuration edits in a row without a phase in between are the same as their composition: still explored (they differ in past keys)
                 cands.append(h + [ev])
-        # histories that end in a configuration edit or a forget need no execution of their own unless followed by a phase: execute only those ending in a phase
         to_run = [h for h in cands if h[-1].startswith(("renew", "restart"))]
         passive = [h for h in cands if not h[-1].startswith(("renew", "restart"))]
         reqs = [build_request(h, n_ca, n_kt) for h in to_run]
@@ -275,23 +315,31 @@ def run(ctx):
             total += 1
             res.evaluations += 1
             res.transitions += len(r["phases"])
-            viols, key = judge(r, o)
+            viols, core = judge(r, o)
             for (oracle, sig, ex, ob) in viols:
                 res.violation(oracle, sig, ex, ob, replay=r)
             res.outcomes["%s|%s" % (h[-1], "viol" if viols else "ok")] += 1
             if total % 149 == ctx.seed % 149:
-                res.add_sample({"history": h, "state_key": str(key)[:300]})
-            if key is None:
+                res.add_sample({"history": h, "state_key": str(core)[:300]})
+            if core is None:
                 continue
+            core_of[tuple(h)] = core
+            key = (core,) + cfg_and_pending(h)
             if key not in seen:
                 seen[key] = h
                 nxt.append(h)
-        # passive histories are kept as prefixes when their (state, pending edits) was not seen
         for h in passive:
-            base = tuple(h)
-            k = ("passive", tuple(x for x in h if not x.startswith(("renew", "restart")))[-3:], tuple(h[:-1]) and str(seen_key_of(seen, h[:-1])))
-            if k not in seen:
-                seen[k] = h
+            # the file/CA relation is that of the last executed prefix; configuration edits compose exactly
+            # (keys are only generated when the daemon loads the configuration)
+            j = len(h)
+            while j > 0 and tuple(h[:j]) not in core_of:
+                j -= 1
+            core = core_of[tuple(h[:j])]
+            core_of[tuple(h)] = core
+            key = (core,) + cfg_and_pending(h)
+            res.transitions += 1
+            if key not in seen:
+                seen[key] = h
                 nxt.append(h)
         depth_done = d
         frontier = nxt
